@@ -704,7 +704,10 @@ def main(ck):
     ck.extra.update({"selection_kinds": kinds, "history_sizes": {str(k): v for k, v in sorted(hist_used.items())},
                      "thread_counts": {str(k): v for k, v in sorted(threads_used.items())},
                      "model_slices_compared": len(keep_slice), "model_lat_scans_compared": len(keep_lat)})
-    ck.trusted += ["numpy unique/isel/vectorize semantics as modelled; the KD/ball tree queries are taken as an oracle-checked "
+    ck.trusted += ["translator c09_efd.py (fail-closed ast walk of _slice_face_indices -> Gen/C09_efd_repo.v); that an edge is listed "
+                   "once in the face_edge row of each face it bounds (so the bincount of the selected rows is the number of "
+                   "selected faces of the edge) is checked on every case by the C02 clause checker",
+                   "numpy unique/isel/vectorize semantics as modelled; the KD/ball tree queries are taken as an oracle-checked "
                    "component (C11 owns them); numba prange scheduler (exercised with 4 thread counts, algorithm proved schedule independent)"]
     ck.assumptions += ["index sets contain no duplicates; regions keep reference points >= 1e-6 deg from their boundary; for a "
                        "latitude equal to a node's latitude an edge ending at that node may or may not be reported (rounding of z)"]
